@@ -359,6 +359,10 @@ pub struct Tok {
     pub is_oov: bool,
     pub wi_surface: String,
     pub head_len: usize,
+    pub a_split: Vec<u32>,
+    pub b_split: Vec<u32>,
+    pub wstruct: Vec<u32>,
+    pub syn: Vec<u32>,
 }
 
 pub fn toks_of<D: std::ops::Deref<Target = JapaneseDictionary> + Clone>(ml: &MorphemeList<D>) -> Vec<Tok> {
@@ -380,6 +384,10 @@ pub fn toks_of<D: std::ops::Deref<Target = JapaneseDictionary> + Clone>(ml: &Mor
             is_oov: m.is_oov(),
             wi_surface: m.get_word_info().surface().to_string(),
             head_len: m.get_word_info().head_word_length(),
+            a_split: m.get_word_info().a_unit_split().iter().map(|w| w.as_raw()).collect(),
+            b_split: m.get_word_info().b_unit_split().iter().map(|w| w.as_raw()).collect(),
+            wstruct: m.get_word_info().word_structure().iter().map(|w| w.as_raw()).collect(),
+            syn: m.get_word_info().synonym_group_ids().to_vec(),
         })
         .collect()
 }
